@@ -192,3 +192,40 @@ func moves(a, b int, h func(int) int) {
 	_ = T{1, 2, a}
 	shift(1, 2, 3, 4)
 }
+
+func nestedBare(ch chan int) {
+	enter(1)
+	defer exit(1)
+	{
+		enter(1)
+		defer exit(1)
+		inner1()
+	}
+	keep1()
+	keep2()
+	select {
+	case v := <-ch:
+		enter(v)
+		defer exit(v)
+		keep0(v)
+		{
+			enter(v)
+			defer exit(v)
+			inner2()
+		}
+		keep3()
+		keep4()
+	}
+}
+
+func nestedInsert() {
+	keep0()
+	acquire()
+	keep1()
+	{
+		acquire()
+		inner1()
+	}
+	keep2()
+	keep3()
+}
